@@ -491,30 +491,138 @@ theorem priced_consistent (cfg : Cfg) (v : View) (cops : List COp) :
 
 /-- Underpriced: with a consistent heap the heap-based answer (skip stale heads, compare with the root) is the comparison
     with the cheapest pooled price; locals are never underpriced. -/
-theorem priced_underpriced_refines (s : Pool) (P : Priced) (t : Tx) (hcov : ∀ x ∈ s.all, x ∈ P.items) :
-    (P.underpriced s.all s.locals t).1 = s.underpriced t := (underpriced_refines s P t hcov).1
+theorem priced_underpriced_refines (s : Pool) (P : Priced) (t : Tx) (hcov : ∀ x ∈ s.all, x ∈ P.items) (hheap : IsHeap P.items) :
+    (P.underpriced s.all s.locals t).1 = s.underpriced t :=
+  (underpriced_refines (b := false) s P t hcov ⟨hheap, fun h => Bool.noConfusion h⟩).1
 
 /-- Discard: every eviction the heap performs is one the oracle permits (pooled, not local, at most `count`; the model's
     `add` with these victims performs exactly these removals), it evicts cheapest first, and it leaves the heap covering
-    everything pooled but the victims. -/
-theorem priced_discard_refines_oracle (s : Pool) (P : Priced) (count : Nat) (hcov : ∀ x ∈ s.all, x ∈ P.items) :
+    everything pooled but the victims.  The pops are the array algorithm of container/heap (`hPop`); that they return
+    minima is `heap_push_pop_spec`, from the hypothesis that the array is a heap — an invariant of the concrete machine
+    (`priced_consistent`).  No run-time check is involved. -/
+theorem priced_discard_refines_oracle (s : Pool) (P : Priced) (count : Nat) (hcov : ∀ x ∈ s.all, x ∈ P.items)
+    (hheap : IsHeap P.items) :
     (∀ v ∈ (P.discard s.all s.locals count).1, v ∈ s.all ∧ v.sender ∉ s.locals) ∧
     (P.discard s.all s.locals count).1.length ≤ count ∧
     s.sanitizeVictims count (P.discard s.all s.locals count).1 = (P.discard s.all s.locals count).1 ∧
     (∀ v ∈ (P.discard s.all s.locals count).1, ∀ u ∈ s.all, u.sender ∉ s.locals →
         u ∉ (P.discard s.all s.locals count).1 → v.price ≤ u.price) := by
-  have := discard_refines s P count hcov
+  have := discard_refines (b := false) s P count hcov ⟨hheap, fun h => Bool.noConfusion h⟩
   simp only at this
   exact ⟨this.1, this.2.1, this.2.2.1, this.2.2.2.1⟩
 
 /-- Cap (SetGasPrice): the heap drops exactly the pooled non-local transactions below the new floor. -/
-theorem priced_cap_refines (s : Pool) (P : Priced) (th : Nat) (hcov : ∀ x ∈ s.all, x ∈ P.items) :
+theorem priced_cap_refines (s : Pool) (P : Priced) (th : Nat) (hcov : ∀ x ∈ s.all, x ∈ P.items) (hheap : IsHeap P.items) :
     ∀ v, v ∈ (P.cap s.all s.locals th).1 ↔ v ∈ s.all ∧ v.price < th ∧ v.sender ∉ s.locals := by
-  have := cap_refines s P th hcov
+  have := cap_refines (b := false) s P th hcov ⟨hheap, fun h => Bool.noConfusion h⟩
   simp only at this
   exact this.1
 
-example : ∀ x ∈ (Pool.init wCfg wView0).all, x ∈ ({ items := [], stales := 0 } : Priced).items := by
-  intro x hx; cases hx
+example : (∀ x ∈ (Pool.init wCfg wView0).all, x ∈ ({ items := [], stales := 0 } : Priced).items) ∧
+    IsHeap ({ items := [], stales := 0 } : Priced).items :=
+  ⟨fun x hx => (by cases hx), isHeap_nil⟩
+
+/-! ## container/heap on the heap array (`hUp hDown hPush hPop hInit` of Aqv.Model.TxPriced, statement by statement the Go
+    `up`, `down`, `Push`, `Pop`, `Init`; `priceHeap.Less` of this code base compares the gas price only) -/
+
+/-- heap.up: if the heap order holds everywhere except between `j` and its parent, and `j`'s children respect `j`'s
+    parent, then after `up(j)` the whole array is a min-heap by price. -/
+theorem heap_up_preserves (f : Nat) (l : List Tx) (j : Nat) (hf : j ≤ f) (hj : j < l.length)
+    (h1 : ∀ k, 0 < k → k < l.length → k ≠ j → hkey l ((k - 1) / 2) ≤ hkey l k)
+    (h2 : ∀ k, 0 < k → k < l.length → (k - 1) / 2 = j → 0 < j → hkey l ((j - 1) / 2) ≤ hkey l k) :
+    IsHeap (hUp f l j) ∧ (hUp f l j).Perm l :=
+  ⟨Aqv.TxPool.heap_up_preserves f l j hf hj h1 h2, hUp_perm f l j hj⟩
+
+/-- heap.down(i, n): if the heap order holds among the first `n` entries for every node whose parent index is at least
+    `lo`, except between `i` and its children, and `i`'s children respect `i`'s parent, then after `down` it holds for
+    every such node; the array is permuted and the entries from `n` on are untouched. -/
+theorem heap_down_preserves (f : Nat) (l : List Tx) (i n lo : Nat) (hf : n ≤ f + i) (hn : n ≤ l.length) (hlo : lo ≤ i)
+    (h1 : ∀ k, 0 < k → k < n → lo ≤ (k - 1) / 2 → (k - 1) / 2 ≠ i → hkey l ((k - 1) / 2) ≤ hkey l k)
+    (h2 : ∀ k, 0 < k → k < n → (k - 1) / 2 = i → 0 < i → lo ≤ (i - 1) / 2 → hkey l ((i - 1) / 2) ≤ hkey l k) :
+    (∀ k, 0 < k → k < n → lo ≤ (k - 1) / 2 → hkey (hDown f l i n) ((k - 1) / 2) ≤ hkey (hDown f l i n) k) ∧
+    (hDown f l i n).Perm l ∧ (∀ k, n ≤ k → (hDown f l i n).getD k txDefault = l.getD k txDefault) :=
+  ⟨Aqv.TxPool.heap_down_preserves f l i n lo hf hn hlo h1 h2, hDown_perm f l i n hn, fun k hk => hDown_getD_ge f l i n k hn hk⟩
+
+/-- heap.Init turns any array into a min-heap by price with the same elements. -/
+theorem heap_init_establishes (l : List Tx) : IsHeap (hInit l) ∧ (hInit l).Perm l :=
+  ⟨Aqv.TxPool.heap_init_establishes l, hInit_perm l⟩
+
+/-- Push / Pop on a heap: the array stays a min-heap by price, the multiset of elements changes by exactly the pushed /
+    popped element, Pop returns a minimum and fails only on the empty array; the executable heap test of the driver is
+    the heap order. -/
+theorem heap_push_pop_spec :
+    (∀ t l, IsHeap l → IsHeap (hPush t l) ∧ (hPush t l).Perm (t :: l)) ∧
+    (∀ l x rest, IsHeap l → hPop l = some (x, rest) → l.Perm (x :: rest) ∧ (∀ y ∈ l, x.price ≤ y.price) ∧ IsHeap rest) ∧
+    (∀ l, hPop l = none ↔ l = []) ∧
+    (∀ l, isHeap l = true ↔ IsHeap l) :=
+  ⟨Aqv.TxPool.heap_push_pop_spec.1, Aqv.TxPool.heap_push_pop_spec.2.1, Aqv.TxPool.heap_push_pop_spec.2.2.1, isHeap_iff⟩
+
+example : IsHeap (hPush ⟨0, 0, 3, 0, 0⟩ (hPush ⟨0, 1, 7, 0, 0⟩ (hPush ⟨0, 2, 5, 0, 0⟩ []))) :=
+  (isHeap_iff _).mp (by decide)
+example : (hPop (hPush ⟨0, 0, 3, 0, 0⟩ (hPush ⟨0, 1, 7, 0, 0⟩ (hPush ⟨0, 2, 5, 0, 0⟩ [])))).map (·.1.price) = some 3 := by decide
+
+/-- The driver's assertion never fires: in every reachable state of the concrete machine the heap array is a min-heap by
+    price and the monitor bit accumulated over all heap operations (`exact`) is still set — the run-time check is dead
+    code on the theorem path, and a cleared bit in the driver can only come from an observed array that was not a heap. -/
+theorem priced_check_never_fires (cfg : Cfg) (v : View) (cops : List COp) :
+    IsHeap ((CPool.init cfg v).runOps cops).2.priced.items ∧ ((CPool.init cfg v).runOps cops).2.priced.exact = true :=
+  ⟨(crun_refines cops (CPool.init cfg v) (cinit_cov cfg v)).2.2.1, (crun_refines cops (CPool.init cfg v) (cinit_cov cfg v)).2.2.2 rfl⟩
+
+/-! ## the stale counter
+
+`txPricedList.stales` is documented as the number of heap entries whose transaction has left `all`.  In this code base it is
+only a heuristic and the equality is NOT an invariant, in either direction:
+* `enqueueTx` always calls `priced.Put`, also for a transaction that `demoteUnexecutables` moves back to the queue and
+  that is still in `all`: the heap then holds the transaction twice, and its later removal makes two entries dead while
+  the counter goes up by one (under-count; popping both as stale heads can even drive the counter negative);
+* `Discard`/`Cap` pop a live victim and the following `removeTx` calls `Removed()` for an entry that is already gone
+  (over-count).
+Neither affects a clause of the property (dead and duplicate entries are skipped by the `∈ all` test and disappear at the
+next re-heap); what does hold is that a re-heap makes the heap exactly `all` again. -/
+
+/-- heap entries whose transaction is no longer pooled -/
+def deadCount (items all : List Tx) : Nat := (items.filter (fun x => decide (x ∉ all))).length
+
+/-- the event `enqueueTx` generates contains `Put(t)` whether or not `t` is already in `all` -/
+theorem enqueueTx_puts_known (s : Pool) (t : Tx) (h : ((s.queue t.sender).add t s.cfg.priceBump).1 = true) :
+    LEv.insPut t ∈ evEnqueueTx s t := by
+  unfold evEnqueueTx
+  simp [h]
+
+private def wTx (n p : Nat) : Tx := ⟨0, n, p, 21000, 0⟩
+private def wL8 : Ledger :=
+  (⟨[], { items := [], stales := 0 }⟩ : Ledger).run ((List.range 8).map (fun n => LEv.insPut (wTx n (10 + n))))
+
+/-- `stales = number of dead entries` is not an invariant (so `stales_counts_dead_entries` is not provable for this code):
+    (1) under-count — eight pooled transactions, `Put` of one of them again (what re-enqueueing a demoted transaction does),
+    then its removal: two dead entries, counter 1; (2) over-count — `Discard(1)` pops the cheapest live entry and the
+    removal of the victim calls `Removed()`: no dead entry, counter 1. -/
+theorem stales_not_dead_count_witness :
+    (let L := wL8.run [LEv.insPut (wTx 0 10), LEv.del (wTx 0 10)]
+     deadCount L.priced.items L.all = 2 ∧ L.priced.stales = 1) ∧
+    (let d := wL8.priced.discard wL8.all [] 1
+     let L := (⟨wL8.all, d.2⟩ : Ledger).run (d.1.map LEv.del)
+     d.1 = [wTx 0 10] ∧ deadCount L.priced.items L.all = 0 ∧ L.priced.stales = 1) := by
+  decide
+
+/-- What the counter does guarantee: `Removed()` either just counts, or — once the counter exceeds a quarter of the heap —
+    rebuilds the heap from `all`: afterwards the array is a min-heap with exactly the pooled transactions (no dead and no
+    duplicate entry) and the counter is 0. -/
+theorem stales_reheap_exact (P : Priced) (all : List Tx) :
+    ((P.removed all).items = P.items ∧ (P.removed all).stales = P.stales + 1 ∧ P.stales + 1 ≤ ((P.items.length / 4 : Nat) : Int)) ∨
+    ((P.removed all).items.Perm all ∧ IsHeap (P.removed all).items ∧ (P.removed all).stales = 0 ∧
+      deadCount (P.removed all).items all = 0 ∧ ((P.items.length / 4 : Nat) : Int) < P.stales + 1) := by
+  unfold Priced.removed
+  simp only
+  split
+  · rename_i h; exact Or.inl ⟨rfl, rfl, h⟩
+  · rename_i h
+    rw [initC_eq]
+    refine Or.inr ⟨hInit_perm all, Aqv.TxPool.heap_init_establishes all, rfl, ?_, by omega⟩
+    unfold deadCount
+    rw [List.length_eq_zero_iff, List.filter_eq_nil_iff]
+    intro x hx
+    simp only [decide_not, Bool.not_eq_true', decide_eq_false_iff_not, Classical.not_not]
+    exact (hInit_perm all).mem_iff.mp hx
 
 end Aqv.Props.C15
